@@ -212,7 +212,8 @@ def assign_failures(obs, failures, w):
                 if o["item"] == f["item"] and o["clause"] == f["clause"] and o["kind"] == f["clause_kind"]:
                     target = o
                     break
-        if target is None and f["clause_kind"] == "hint" and f["labels"]:
+        # a labelled proof hint, or a call that does not meet a LABELLED precondition of its callee: reported under that label, at the caller
+        if target is None and f["clause_kind"] in ("hint", "requires", "recommends") and f["labels"]:
             it = w.items[f["item"]]
             oid = "%s@%s" % (f["labels"][0], it["fn"])
             for o in obs:
